@@ -90,12 +90,17 @@ def _failing_lemma(stdout, txt):
     return lines[ln] if 0 <= ln < len(lines) else ''
 
 
-def extracted_certs(drv, caps):
-    """Run the extracted checker. Returns {id: [dfa_ok, sim_ok, exact_ok, wf_graph]}."""
+def extracted_certs(drv, caps, construction=None):
+    """Run the extracted checker. Returns {id: [dfa_ok, sim_ok, exact_ok, wf_graph, ...]}.
+    construction: optional dict filled with {id: [5 side conditions of build_side, gsim_ok (build d) g]}
+    (the Coq model of Graph::new run on the captured raw DFA and compared with the captured graph)."""
     jobs = []
     for i, c in enumerate(caps):
-        jobs.append(engine.problem_header(c, hints=True) + ['C %d' % i])
+        jobs.append(engine.problem_header(c, hints=True) + ['C %d' % i] + (['GB %d' % i] if construction is not None else []))
     out = engine.parse_model_output(engine.run_modeldrv(drv, _batch(jobs)))
+    if construction is not None:
+        for i, c in enumerate(caps):
+            construction[c.id or c.name] = out.get('GB:%d' % i)
     return {(c.id or c.name): out.get('C:%d' % i) for i, c in enumerate(caps)}
 
 
@@ -190,8 +195,33 @@ def path_to_pair(c, s, q):
             continue
         for t, rs in st['edges']:
             for lo, hi in rs:
-                for b in (lo, hi):
+                # every byte of the range: the graph edge may cover bytes on which the DFA goes elsewhere
+                for b in range(lo, hi + 1):
                     nx = (t, dfa.step(cur[1], b))
                     if nx not in prev:
                         prev[nx] = (cur, b); dq.append(nx)
+    return None
+
+
+def graph_completion(c, s, limit=64):
+    """Shortest byte string leading, in the captured graph, from state s to a state that records a match
+    (used to turn a suspicious edge into a complete token when searching for a failing input)."""
+    from collections import deque
+    g = c.graph
+    prev = {s: None}
+    dq = deque([s])
+    while dq:
+        cur = dq.popleft()
+        st = g['states'].get(cur)
+        if not st:
+            continue
+        if cur != s and (st['accept'] is not None or st['early'] is not None):
+            out = []
+            while prev[cur] is not None:
+                cur, b = prev[cur]
+                out.append(b)
+            return bytes(reversed(out))
+        for t, rs in st['edges']:
+            if t not in prev and rs and len(prev) < 5000:
+                prev[t] = (cur, rs[0][0]); dq.append(t)
     return None
